@@ -176,10 +176,17 @@ func ToId(i IdProperty) (*url.URL, error) {
 // valid on this type, or it is also not set.
 func GetId(t vocab.Type) (*url.URL, error) {
 	if id := t.GetJSONLDId(); id != nil {
-		return id.Get(), nil
+		if u := id.Get(); u != nil {
+			return u, nil
+		}
+		// The property is present but holds something other than an IRI.
+		return nil, fmt.Errorf("id of activitystreams value is not an IRI")
 	} else if h, ok := t.(hrefer); ok {
 		if href := h.GetActivityStreamsHref(); href != nil {
-			return href.Get(), nil
+			if u := href.Get(); u != nil {
+				return u, nil
+			}
+			return nil, fmt.Errorf("href of activitystreams value is not an IRI")
 		}
 	}
 	return nil, fmt.Errorf("cannot determine id of activitystreams value")
